@@ -466,7 +466,7 @@ func c15Brokers(c *Ctx) {
 	p := c.P
 	rule := "C15.brokers"
 	c.Doc(rule, "updateBroker: a broker is removed only when its id is absent from the response, and every absent one is; a registered broker is replaced only when its address changed, a new id is added")
-	c.Floor(rule, 5)
+	c.Floor(rule, 6)
 	// every metadata response — full or for some topics — updates the broker set and the controller id
 	if um := c.NeedFn(rule, "client.updateMetadata"); um != nil {
 		reg := WholeFn(um)
@@ -491,6 +491,18 @@ func c15Brokers(c *Ctx) {
 		return
 	}
 	fi := Info(fn)
+	// the pass over the registered brokers (which drops the absent ones) runs on every path: a shortcut such as
+	// "only if we know more brokers than the response lists" misses a response that both drops and adds an id
+	{
+		walk := func(it Item) bool {
+			r, ok := it.In.(*ssa.Range)
+			return ok && FieldLoad(cBroker)(r.X)
+		}
+		ws := fi.Find(walk)
+		esc, path := WholeFn(fn).Escape(walk)
+		c.Check(len(ws) > 0 && !esc, rule, fn, "registry-swept-on-every-path", nil, "the loop over client.brokers that removes absent brokers is reached on every path",
+			"updateBroker can return without walking the registered brokers: a broker that vanished in the same response in which another appeared stays registered — Brokers()/Broker(id) keep answering with it, Leader() returns the stale broker instead of ErrLeaderNotAvailable", path)
+	}
 	exist := func(v ssa.Value) bool {
 		ex, ok := v.(*ssa.Extract)
 		if !ok || ex.Index != 1 {
